@@ -241,7 +241,8 @@ def checkSamples (c : Case) (A : Flat) (res : List (List (List Pt))) (maxAbs : I
     let rout := qOfRat (sq (if gross then r.rOutG else r.rOut))
     if c.d > 0 then verdictPos F p rin rout m2 fJ fC
     else if c.d < 0 then verdictNeg F p rin rout m2 fJ c.polyValid
-    else verdictZero F p (qOfRat (sq (r.tol * 4096)))
+    else if c.polyValid then verdictZero F p (qOfRat (sq (r.tol * 4096)))
+    else .free          -- buffer(0) of overlapping polygons is outside the property ("a zero-distance buffer of a valid polygon")
   let d2 := qOfRat (sq ad)
   let rec go : List Probe → Option String
     | [] => none
@@ -380,6 +381,10 @@ def checkBuffer (stats : Bool) (line : String) : String :=
           let nearTol2 := qOfRat (nearTol * nearTol)
           let nearTouch := A.lines.flatten.any fun v => lineSegs.any fun (_, _, _, _, e) =>
             v != e.p && v != e.q && (d2Seg (HPt.ofPt v) e).le nearTol2
+          -- ... or (tag `near`) a vertex comes within |d| of a segment it is not an end point of: the one-sided band folds onto the line
+          let d2q := qOfRat (sq c.d)
+          let selfNear := A.lines.flatten.any fun v => lineSegs.any fun (_, _, _, _, e) =>
+            v != e.p && v != e.q && (d2Seg (HPt.ofPt v) e).le d2q
           let selfX := repeated || nearTouch || (List.range arr.size).any fun i => (List.range arr.size).any fun j =>
             if j ≤ i then false
             else
@@ -394,7 +399,7 @@ def checkBuffer (stats : Bool) (line : String) : String :=
                  decide (ux * vx + uy * vy < 0) && decide (cr * cr * 1000000000000 ≤ a.sqLen * b.sqLen))
               else if li == lj && cl && si == 0 && sj == n - 1 then r == SegRel.overlap
               else r != SegRel.disjoint
-          let tag (e : String) : String := if e == "ok" || e.startsWith "stats" then e else e ++ s!" reg={if big then "big" else "small"} closed={if closed then 1 else 0} selfx={if selfX then 1 else 0} parts={A.lines.length} tiny={if tiny then 1 else 0}"
+          let tag (e : String) : String := if e == "ok" || e.startsWith "stats" then e else e ++ s!" reg={if big then "big" else "small"} closed={if closed then 1 else 0} selfx={if selfX then 1 else 0} parts={A.lines.length} tiny={if tiny then 1 else 0} near={if selfNear then 1 else 0}"
           tag <|
           if get "st" != "ok" then s!"bad null mode={get "mode"}" else
           if c.mode == "buf" then
